@@ -240,15 +240,18 @@ def classify_calib(case):
 VALID = {"hem": {"sigma": (0.0, 0.6), "p": (0.05, 1.0), "eta1": (1.5, 60.0), "eta2": (0.5, 60.0), "intensity": (0.0, 20.0)},
          "merton": {"sigma": (0.0, 0.6), "mu_j": (0.0, 0.4), "sigma_j": (0.01, 0.5), "intensity": (0.0, 20.0)},
          "vg": {"sigma": (0.02, 0.6), "nu": (0.01, 2.0), "theta": (-0.5, 0.5)},
-         "cgmy": {"c": (0.01, 5.0), "g": (1.5, 40.0), "m": (1.5, 40.0), "y": (-1.5, 1.9)}}
+         "cgmy": {"c": (0.01, 5.0), "g": (1.5, 40.0), "m": (1.5, 40.0), "y": (-1.5, 1.9)},
+         "bs": {"sigma": (0.01, 0.8)}}
 INVALID = {"hem": {"sigma": -0.1, "p": 0.0, "eta1": 0.0, "eta2": -1.0, "intensity": -1.0},
            "merton": {"sigma": -0.1, "mu_j": -0.1, "sigma_j": 0.0, "intensity": -0.5},
-           "vg": {"sigma": -0.2}, "cgmy": {"c": 0.0, "g": -1.0, "m": -0.5, "y": 2.0}}
+           "vg": {"sigma": -0.2}, "cgmy": {"c": 0.0, "g": -1.0, "m": -0.5, "y": 2.0}, "bs": {"sigma": -0.1}}
 
 
 @st.composite
 def strat_params(draw, tier):
     spec = draw(strat_model())
+    if draw(st.integers(0, 5)) == 0:
+        spec = {"family": "bs", "params": {"sigma": draw(st.sampled_from([0.02, 0.05, 0.2, 0.6]))}, "exp": spec["exp"]}
     fam = spec["family"]
     ops = []
     for _ in range(draw(st.integers(1, 8))):
@@ -308,14 +311,17 @@ def body_params(case):
     from rpylib.model.levymodel.purejump.cgmy import ExponentialOfCGMYModel
     from rpylib.model.levymodel.purejump.variancegamma import ExponentialOfVarianceGammaModel
 
+    from rpylib.model.levymodel.mixed.blackscholes import BlackScholesModel
+
     cls = {"hem": ExponentialOfHEMModel, "merton": ExponentialOfMertonModel, "cgmy": ExponentialOfCGMYModel,
-           "vg": ExponentialOfVarianceGammaModel}[fam]
+           "vg": ExponentialOfVarianceGammaModel, "bs": BlackScholesModel}[fam]
     try:
         rebuilt = cls(spot=e["spot"], r=e["r"], d=e["d"], parameters=params)
         direct = build_model({"family": fam, "params": final, "exp": e})
     except (ValueError, ZeroDivisionError, OverflowError):
         return out + [Violation("REJECTED", "final parameter set not admissible for the exponential model")]
-    pr, pd_ = rebuilt.levy_model.parameters.__dict__, direct.levy_model.parameters.__dict__
+    _po = lambda m_: getattr(m_.levy_model, "parameters", None) or m_.parameters  # noqa: E731  (Black-Scholes keeps them on the model)
+    pr, pd_ = _po(rebuilt).__dict__, _po(direct).__dict__
     for k_ in pd_:
         a, b = pr.get(k_), pd_[k_]
         try:  # (fields may be scalars or arrays)
@@ -350,6 +356,21 @@ def body_params(case):
     a, b = rebuilt.process_drift(), direct.process_drift()
     if not np.allclose(a, b, rtol=1e-12, atol=1e-14, equal_nan=True):
         out.append(Violation(f"C20/parameters/{fam}/process-drift-out-of-sync", f"{a} vs {b}; {detail}"))
+    # the stated cumulants (the COS pricer builds its range from them) and an at-the-money COS call
+    for k_ in (1, 2, 4):
+        a, b = (float(getattr(m_.cumulant, f"cumulant{k_}")(0.7)) for m_ in (rebuilt, direct))
+        if not (abs(a - b) <= 1e-12 * (1 + abs(b)) or (a != a and b != b)):
+            out.append(Violation(f"C20/parameters/{fam}/cumulant-out-of-sync", f"cumulant {k_}: {a} vs {b}; {detail}"))
+            return out
+    from rpylib.numerical.cosmethod import COSPricer
+
+    try:
+        a = float(np.ravel(COSPricer(rebuilt).call(strikes=e["spot"], time=0.7))[0])
+        b = float(np.ravel(COSPricer(direct).call(strikes=e["spot"], time=0.7))[0])
+    except (ValueError, ZeroDivisionError, OverflowError):
+        return out
+    if not (abs(a - b) <= 1e-10 * (1 + abs(b)) or (a != a and b != b)):
+        out.append(Violation(f"C20/parameters/{fam}/cos-price-out-of-sync", f"ATM call {a} vs {b}; {detail}"))
     return out
 
 
